@@ -107,7 +107,17 @@ def specs : List (String × Spec) := [
       .cond (fun t => ver t = 0) [u "media_time" 4], .cond (fun t => ver t ≠ 0) [u "media_time" 8]] }),
   ("mfro", { layout := full ++ [u "parent_size" 4] }),
   ("btrt", { layout := [u "buffer_size_db" 4, u "max_bitrate" 4, u "avg_bitrate" 4] }),
-  ("pasp", { layout := [u "h_spacing" 4, u "v_spacing" 4] })
+  ("pasp", { layout := [u "h_spacing" 4, u "v_spacing" 4] }),
+  ("clap", { layout := [u "width_n" 4, u "width_d" 4, u "height_n" 4, u "height_d" 4,
+      u "horiz_off_n" 4, u "horiz_off_d" 4, u "vert_off_n" 4, u "vert_off_d" 4] }),
+  ("cslg", { layout := full ++ [
+      .cond (fun t => ver t = 0) [u "composition_to_dts_shift" 4, u "least_delta" 4, u "greatest_delta" 4, u "start" 4, u "end" 4],
+      .cond (fun t => ver t ≠ 0) [u "composition_to_dts_shift" 8, u "least_delta" 8, u "greatest_delta" 8, u "start" 8, u "end" 8]] }),
+  ("CoLL", { layout := full ++ [u "max_cll" 2, u "max_fall" 2], strict := true }),
+  ("SmDm", { layout := full ++ [u "rx" 2, u "ry" 2, u "gx" 2, u "gy" 2, u "bx" 2, u "by" 2, u "wx" 2, u "wy" 2,
+      u "luminance_max" 4, u "luminance_min" 4], strict := true }),
+  ("sbgp", { layout := full ++ [raw "grouping_type" 4, .cond (fun t => ver t = 1) [u "grouping_type_parameter" 4],
+      u "count" 4, .rep (fun t => t.nat "count") [u "sample_count" 4, u "group_description_index" 4]], strict := true })
 ]
 
 def specOf (ty : String) : Option Spec := (specs.find? (·.1 == ty)).map (·.2)
